@@ -215,10 +215,13 @@ class Opaque:                    # messages, ZSTs, things the property does not 
 
 
 class Closure:
-    __slots__ = ('key', 'captures', 'creator')
+    __slots__ = ('key', 'captures', 'creator', 'names', 'site', 'ordinal')
 
     def __init__(self, key, captures, creator=None):
         self.key, self.captures, self.creator = key, list(captures), creator
+        self.names = ()
+        self.site = ''
+        self.ordinal = None
 
     @property
     def fields(self):
@@ -309,7 +312,11 @@ def deep_copy(v):
     if isinstance(v, Cell) and v.kind == 'box':
         return Cell(deep_copy(v.v), 'box')
     if isinstance(v, Closure):
-        return Closure(v.key, [deep_copy(x) for x in v.captures])
+        c_ = Closure(v.key, [deep_copy(x) for x in v.captures], v.creator)
+        c_.names = v.names
+        c_.site = v.site
+        c_.ordinal = v.ordinal
+        return c_
     return v        # Int/Big/Bool immutable; Rc cell shared; Ref; Opaque
 
 
@@ -802,6 +809,8 @@ class Engine:
                     ty = None
                     if not pl[1]:
                         ty = f.locals.get('_%d' % pl[0])
+                    if s[2][0] == 'closure':
+                        self.cur_span = s[3]
                     self.store(fr, pl, self.rvalue(f, fr, s[2], ty))
                 elif s[0] == 'setdiscr':
                     v = self.load(fr, s[1])
@@ -1095,7 +1104,11 @@ class Engine:
         if k == 'adt':
             return self.adt(f, fr, r, ty)
         if k == 'closure':
-            return Closure(r[1], [self.operand(f, fr, a) for a in r[2]], f.name)
+            c_ = Closure(r[1], [self.operand(f, fr, a) for a in r[2]], f.name)
+            c_.names = r[3] if len(r) > 3 else ()
+            c_.site = getattr(self, 'cur_span', '')
+            c_.ordinal = r[4] if len(r) > 4 else None
+            return c_
         if k == 'ptrmeta':
             v = self.operand(f, fr, r[1])
             if isinstance(v, Slice):
@@ -1610,7 +1623,7 @@ class Engine:
     def closure_body(self, clo):
         """MIR body of a closure value.  Closure types are keyed by their source span, which is shared by all
         closures that come from one macro (e.g. do-notation's m!), so prefer the bodies nested in the creator."""
-        ck = (clo.key, clo.creator, len(clo.captures))
+        ck = (clo.key, clo.creator, len(clo.captures), getattr(clo, 'names', ()), getattr(clo, 'ordinal', None))
         hit = self._closure_cache.get(ck)
         if hit is not None:
             return hit
@@ -1634,6 +1647,50 @@ class Engine:
                 by_caps = [n for n in cands if ncap(self.funcs[n]) == len(clo.captures)]
                 if len(by_caps) >= 1:
                     cands = by_caps
+                names = getattr(clo, 'names', ())
+                if len(cands) > 1 and names:
+                    # closures of one macro expansion share a span: tell them apart by the variables they capture
+                    by_names = [n for n in cands if all(dict(self.funcs[n].upvars).get(i, nm) == nm for i, nm in enumerate(names))
+                                and len(self.funcs[n].upvars) <= len(names)]
+                    exact = [n for n in by_names if tuple(v for _, v in self.funcs[n].upvars) == tuple(names)]
+                    if len(exact) >= 1:
+                        cands = exact
+                    elif len(by_names) >= 1:
+                        cands = by_names
+                if len(cands) > 1 and getattr(clo, 'ordinal', None) is not None:
+                    # still tied (same macro, same captures): the k-th capturing closure built by the creator, in textual
+                    # order, is its k-th capturing {closure#n}
+                    kids = []
+                    for n, fobj in self.funcs.items():
+                        if n.startswith(pre):
+                            tail = n[len(pre):]
+                            mm_ = re.fullmatch(r'(\d+)\}', tail)
+                            if mm_ and fobj.upvars:
+                                kids.append((int(mm_.group(1)), n))
+                    kids.sort()
+                    if clo.ordinal < len(kids) and kids[clo.ordinal][1] in cands:
+                        cands = [kids[clo.ordinal][1]]
+                site = getattr(clo, 'site', '')
+                sm_ = re.match(r'^(.*?):(\d+):\d+: (\d+):\d+$', site or '')
+                if len(cands) > 1 and sm_:
+                    # still tied: the statement that builds the closure spans the source lines of its body
+                    sfile, lo, hi = sm_.group(1), int(sm_.group(2)), int(sm_.group(3))
+
+                    def inside(fobj):
+                        hits = 0
+                        for b in fobj.blocks.values():
+                            for text, sp in list(b.raw)[:40]:
+                                mm = re.match(r'^(.*?):(\d+):\d+: (\d+):\d+$', sp or '')
+                                if mm and mm.group(1) == sfile:
+                                    if lo <= int(mm.group(2)) <= hi:
+                                        hits += 1
+                                    else:
+                                        return -1
+                        return hits
+                    scored = [(inside(self.funcs[n]), n) for n in cands]
+                    good = [n for sc, n in scored if sc > 0]
+                    if len(good) >= 1:
+                        cands = good
             if len(cands) == 1:
                 name = cands[0]
             elif len(cands) > 1:
